@@ -9,6 +9,7 @@ import (
 	"fmt"
 	"go/token"
 	"io"
+	"bytes"
 	"os"
 	"os/exec"
 	"regexp"
@@ -91,6 +92,8 @@ type Explorer struct {
 	z       *solver
 	decls   map[string]int // name -> width (0 = not declared)
 	declOrd []string
+	QFallback int64
+	sincePaths int
 	known   map[string]bool
 	chosen  map[string]int64
 	nfun    int
@@ -135,6 +138,10 @@ type solver struct {
 	argv  []string
 	toMS  int
 	dead  bool
+	// the commands of the current path (scope depth 1), kept so that a query the
+	// solver cannot decide can be handed to the other solver as a one-shot script
+	depth  int
+	script []string
 }
 
 func newSolver(argv []string, timeoutMS int) *solver {
@@ -173,10 +180,24 @@ func newSolver(argv []string, timeoutMS int) *solver {
 
 func (s *solver) send(l string) {
 	if s.dead {
+		if s.depth == 1 && (strings.HasPrefix(l, "(assert") || strings.HasPrefix(l, "(declare") || strings.HasPrefix(l, "(define")) {
+			s.script = append(s.script, l)
+		}
 		return
 	}
 	if s.log != nil {
 		io.WriteString(s.log, l+"\n")
+	}
+	switch {
+	case strings.HasPrefix(l, "(push"):
+		s.depth++
+		if s.depth == 1 {
+			s.script = s.script[:0]
+		}
+	case strings.HasPrefix(l, "(pop"):
+		s.depth--
+	case s.depth == 1 && !strings.HasPrefix(l, "(check-sat") && !strings.HasPrefix(l, "(get-") && !strings.HasPrefix(l, "(set-option"):
+		s.script = append(s.script, l)
 	}
 	s.in.WriteString(l)
 	s.in.WriteByte('\n')
@@ -246,11 +267,32 @@ func (e *Explorer) check(extra string) bool {
 	}
 	t0 := time.Now()
 	e.Queries++
-	e.z.send("(push 1)")
-	e.z.send("(assert " + extra + ")")
-	e.z.send("(check-sat)")
-	r := e.z.line()
-	e.z.send("(pop 1)")
+	r := "unknown"
+	if !e.z.dead {
+		func() {
+			defer func() {
+				if x := recover(); x != nil {
+					if a, ok := x.(abortPath); ok && a.kind == KUnknown {
+						r = "unknown: " + a.msg
+						return
+					}
+					panic(x)
+				}
+			}()
+			e.z.send("(push 1)")
+			e.z.send("(assert " + extra + ")")
+			e.z.send("(check-sat)")
+			r = e.z.line()
+			e.z.send("(pop 1)")
+		}()
+	}
+	if r != "sat" && r != "unsat" {
+		// second opinion: the same path condition and query as a one-shot script for the other solver
+		if fr := e.fallback(extra); fr == "sat" || fr == "unsat" {
+			e.QFallback++
+			r = fr
+		}
+	}
 	e.SolverNS += time.Since(t0)
 	switch r {
 	case "sat":
@@ -263,6 +305,55 @@ func (e *Explorer) check(extra string) bool {
 	e.QUnknown++
 	// drain a possible error continuation is not needed: one line per check-sat
 	panic(abortPath{KUnknown, "solver answered " + r})
+}
+
+// fallback decides pc ∧ extra with the solver that is not the primary one
+// (z3 <-> cvc5), as a fresh process under a hard time limit.
+func (e *Explorer) fallback(extra string) string {
+	if os.Getenv("SYMGO_NO_FALLBACK") != "" || e.z == nil {
+		return "unknown"
+	}
+	var argv []string
+	var sb strings.Builder
+	limit := 2*e.TimeoutMS + 30000
+	if strings.Contains(e.SolverCmd[0], "z3") {
+		argv = []string{"cvc5", "--lang=smt2", fmt.Sprintf("--tlimit=%d", limit)}
+		sb.WriteString("(set-logic ALL)\n")
+	} else {
+		argv = []string{"z3", "-in", fmt.Sprintf("-t:%d", limit)}
+	}
+	for _, l := range e.z.script {
+		sb.WriteString(l)
+		sb.WriteByte('\n')
+	}
+	sb.WriteString("(assert " + extra + ")\n(check-sat)\n")
+	cmd := exec.Command(argv[0], argv[1:]...)
+	cmd.Stdin = strings.NewReader(sb.String())
+	var out bytes.Buffer
+	cmd.Stdout = &out
+	if err := cmd.Start(); err != nil {
+		return "unknown"
+	}
+	done := make(chan struct{})
+	go func() { cmd.Wait(); close(done) }()
+	select {
+	case <-done:
+	case <-time.After(time.Duration(limit+15000) * time.Millisecond):
+		cmd.Process.Kill()
+		<-done
+		return "unknown"
+	}
+	txt := out.String()
+	if strings.Contains(txt, "(error") {
+		return "unknown"
+	}
+	for _, l := range strings.Split(txt, "\n") {
+		l = strings.TrimSpace(l)
+		if l == "sat" || l == "unsat" {
+			return l
+		}
+	}
+	return "unknown"
 }
 
 var bvLit = regexp.MustCompile(`^\(\s*([^\s()]+)\s+(#x[0-9a-fA-F]+|#b[01]+|\(_ bv[0-9]+ [0-9]+\)|true|false)\s*\)`)
@@ -727,9 +818,12 @@ func (e *Explorer) RunPrefix(j *Job, prefix []string, concrete map[string]uint64
 		MaxPreempt = 0 // deterministic scheduling: switches only at blocking operations
 	}
 	if !e.IsConcrete {
-		if e.z.dead {
+		e.sincePaths++
+		if e.z.dead || e.sincePaths > 400 {
+			// a fresh solver process now and then: incremental solvers (cvc5 above all) keep growing over thousands of push/pop rounds
 			e.z.close()
 			e.z = newSolver(e.SolverCmd, e.TimeoutMS)
+			e.sincePaths = 0
 		}
 		e.z.send("(push 1)")
 	}
